@@ -726,6 +726,16 @@ func tableFieldGlobals(v ssa.Value) []string {
 		}
 	}
 	arr, ok := base.(*ssa.Alloc)
+	if c, isCall := base.(*ssa.Call); !ok && isCall && !c.Common().IsInvoke() {
+		// the table is what a function of the module returns (`func roundPoolSplits() []poolSplit { return []poolSplit{...} }`)
+		if h := c.Common().StaticCallee(); h != nil && h.Blocks != nil && strings.HasPrefix(pkgPathOf(h), modPath) {
+			if rets := Returns(h); len(rets) == 1 && len(retVals(rets[0])) == 1 {
+				if sl, isSl := retVals(rets[0])[0].(*ssa.Slice); isSl {
+					arr, ok = sl.X.(*ssa.Alloc)
+				}
+			}
+		}
+	}
 	if !ok {
 		// the table is a package-level variable: its backing array is built in the package initialiser
 		if g, isG := base.(*ssa.Global); isG && g.Pkg != nil {
